@@ -214,6 +214,11 @@ impl Variable {
                 !(self is Mut) ==> r == Err::<MutV, Variable>(self)
     { match self { Variable::Mut(b) => Ok(b), o => Err(o) } }
 
+    pub fn into_struct(self) -> (r: Result<StructV, Variable>)
+        ensures self is Struct ==> r == Ok::<StructV, Variable>(self->Struct_0),
+                !(self is Struct) ==> r == Err::<StructV, Variable>(self)
+    { match self { Variable::Struct(b) => Ok(b), o => Err(o) } }
+
     pub fn into_function(self) -> (r: Result<FunV, Variable>)
         ensures self is Function ==> r == Ok::<FunV, Variable>(self->Function_0),
                 !(self is Function) ==> r == Err::<FunV, Variable>(self)
@@ -227,17 +232,23 @@ impl Variable {
 pub struct Type { pub id: Ghost<int> }                 // src/variable/type.rs (HashSet-based unions: outside Verus)
 pub struct Params { pub id: Ghost<int> }
 pub struct AnonymousFunction { pub id: Ghost<int> }
-pub struct FieldAccess { pub id: Ghost<int> }
 pub struct FunctionDeclaration { pub id: Ghost<int> }
-pub struct MutIns { pub id: Ghost<int> }               // instruction::mut::Mut
 pub struct Reduce { pub id: Ghost<int> }
-pub struct Slicing { pub id: Ghost<int> }
 pub struct StructIns { pub id: Ghost<int> }            // instruction::struct::Struct
-pub struct TupleAccess { pub id: Ghost<int> }
 pub struct TypeFilter { pub id: Ghost<int> }
 pub struct NativeFn { pub id: Ghost<int> }              // fn(&mut Interpreter) -> Result<Variable, ExecError> (fn pointers: outside Verus)
 pub struct Name { pub id: Ghost<int> }                 // Arc<str> used as an identifier
 
+/// the characters of an identifier (Arc<str> used as a field name / variable name)
+pub uninterp spec fn name_chars(n: Name) -> Seq<char>;
+impl StructV {
+    /// HashMap::get through the Arc: the value stored under the field name, if any
+    #[verifier::external_body]
+    pub fn get(&self, k: &Name) -> (r: Option<&Variable>)
+        ensures self.map.fields@.dom().contains(name_chars(*k)) ==> r == Some(&self.map.fields@[name_chars(*k)]),
+                !self.map.fields@.dom().contains(name_chars(*k)) ==> r is None
+    { unimplemented!() }
+}
 pub uninterp spec fn spec_as_type(v: Variable) -> Type;
 pub uninterp spec fn spec_matches(a: Type, b: Type) -> bool;
 impl Variable {
@@ -328,6 +339,15 @@ impl Interpreter {
             }),
             final(self).st@ == seq_st(instructions@, old(self).st@, 0),
     { unimplemented!() }
+}
+// `tuple[i]` on an Arc<[Variable]>: slice indexing (panics when out of range: a precondition)
+impl vstd::std_specs::core::IndexSpecImpl<usize> for Tup {
+    open spec fn index_req(&self, i: &usize) -> bool { *i < self.elems@.len() }
+}
+impl std::ops::Index<usize> for Tup {
+    type Output = Variable;
+    #[verifier::external_body]
+    fn index(&self, i: usize) -> (r: &Variable) ensures *r == self.elems@[i as int] { unimplemented!() }
 }
 impl Tup {
     #[verifier::external_body]
@@ -609,6 +629,36 @@ impl vstd::std_specs::convert::FromSpecImpl<SetIfElse> for Instruction {
     open spec fn from_spec(v: SetIfElse) -> Instruction { Instruction::SetIfElse(Arc::new(v)) }
 }
 impl From<SetIfElse> for Instruction { fn from(v: SetIfElse) -> (r: Instruction) { Instruction::SetIfElse(Arc::new(v)) } }
+
+impl vstd::std_specs::convert::FromSpecImpl<TupleAccess> for Instruction {
+    open spec fn obeys_from_spec() -> bool { true }
+    open spec fn from_spec(v: TupleAccess) -> Instruction { Instruction::TupleAccess(Arc::new(v)) }
+}
+impl From<TupleAccess> for Instruction { fn from(v: TupleAccess) -> (r: Instruction) { Instruction::TupleAccess(Arc::new(v)) } }
+impl vstd::std_specs::convert::FromSpecImpl<FieldAccess> for Instruction {
+    open spec fn obeys_from_spec() -> bool { true }
+    open spec fn from_spec(v: FieldAccess) -> Instruction { Instruction::FieldAccess(Arc::new(v)) }
+}
+impl From<FieldAccess> for Instruction { fn from(v: FieldAccess) -> (r: Instruction) { Instruction::FieldAccess(Arc::new(v)) } }
+impl vstd::std_specs::convert::FromSpecImpl<MutIns> for Instruction {
+    open spec fn obeys_from_spec() -> bool { true }
+    open spec fn from_spec(v: MutIns) -> Instruction { Instruction::Mut(Arc::new(v)) }
+}
+impl From<MutIns> for Instruction { fn from(v: MutIns) -> (r: Instruction) { Instruction::Mut(Arc::new(v)) } }
+
+// derived Clone on Instruction / InstructionWithStr / LocalVariable (Arc clones share the payload): the clone is the same value
+impl Clone for Instruction {
+    #[verifier::external_body]
+    fn clone(&self) -> (r: Self) ensures r == *self { unimplemented!() }
+}
+impl Clone for InstructionWithStr {
+    #[verifier::external_body]
+    fn clone(&self) -> (r: Self) ensures r == *self { unimplemented!() }
+}
+impl Clone for LocalVariable {
+    #[verifier::external_body]
+    fn clone(&self) -> (r: Self) ensures r == *self { unimplemented!() }
+}
 
 //@MACHINE
 
